@@ -299,8 +299,8 @@ def analyse(ctx, var, cases, ml, il, st):
         for x in i["extra"]:
             if x.startswith("monitor bad"):
                 st["monitor_bad"] += 1
-                ctx.violation("WeakRingBuffer%s violates the SPSC FIFO property on the real code (implementation-side monitor): %s" % ("<void>" if var == "ringv" else "<int>", x[12:]),
-                              {"variant": var, "case": c, "monitor": x, "impl_log": i["lines"]}, signature=None)
+                ctx.violation("WeakRingBuffer%s violates the SPSC FIFO property on the real code (implementation-side monitor)" % ("<void>" if var == "ringv" else "<int>"),
+                              {"variant": var, "case": c, "monitor": x[12:], "impl_log": i["lines"]}, signature=None)
             elif x.startswith("monitor note") and "failed although the ring held no record" in x:
                 st["empty_fail"] += 1
                 if st["empty_fail_case"] is None:
